@@ -220,6 +220,80 @@ type flagRegion struct {
 	Calls    []*ssa.Call
 	LeakAt   []ssa.Instruction // returns reached with the flag still true and no deferred restore
 	Restored bool
+	// restores whose value is not a copy of the flag taken before it was set
+	StaleRestore []*ssa.Store
+}
+
+// savedBefore: the value a restore writes back is (a copy of) a load of Parser.<field> that was
+// executed before the store `set` that switched the flag on. d is the Defer instruction when the
+// restore sits in a deferred closure (parameters / captured variables are resolved through it).
+func savedBefore(v ssa.Value, d *ssa.Defer, set *ssa.Store, field string) bool {
+	seen := map[ssa.Value]bool{}
+	var rec func(v ssa.Value, depth int) bool
+	rec = func(v ssa.Value, depth int) bool {
+		if depth > 8 || seen[v] {
+			return false
+		}
+		seen[v] = true
+		switch x := v.(type) {
+		case *ssa.UnOp:
+			if x.Op != token.MUL {
+				return false
+			}
+			if sf, ok := loadedField(x); ok && sf.Is("Parser", field) {
+				return x.Parent() == set.Parent() && dominatesInstr(x, set)
+			}
+			// load of a local / captured variable: every store to it must qualify
+			switch a := x.X.(type) {
+			case *ssa.Alloc:
+				n, ok := 0, true
+				for _, r := range referrersOf(a) {
+					if st, isSt := r.(*ssa.Store); isSt && st.Addr == ssa.Value(a) {
+						n++
+						if !rec(st.Val, depth+1) {
+							ok = false
+						}
+					}
+				}
+				return n > 0 && ok
+			case *ssa.FreeVar:
+				if al := freeVarAlloc(a); al != nil {
+					n, ok := 0, true
+					for _, r := range referrersOf(al) {
+						if st, isSt := r.(*ssa.Store); isSt && st.Addr == ssa.Value(al) {
+							n++
+							if !rec(st.Val, depth+1) {
+								ok = false
+							}
+						}
+					}
+					return n > 0 && ok
+				}
+			}
+			return false
+		case *ssa.Parameter:
+			// parameter of the deferred closure: the argument at the defer site
+			if d == nil {
+				return false
+			}
+			fn := x.Parent()
+			for i, prm := range fn.Params {
+				if prm == x && i < len(d.Call.Args) {
+					return rec(d.Call.Args[i], depth+1)
+				}
+			}
+			return false
+		case *ssa.Phi:
+			for _, e := range x.Edges {
+				if !rec(e, depth+1) {
+					return false
+				}
+			}
+			return len(x.Edges) > 0
+		}
+		return false
+	}
+	return rec(v, 0)
 }
 
 // flagRegions: for every store `Parser.<field> = true`, the calls executed while the flag is
@@ -255,6 +329,9 @@ func flagRegions(p *Program, field string) []flagRegion {
 					if b, ok := constBool(s.Val); !ok || !b {
 						if dominatesInstr(d, st) || d.Block() == st.Block() {
 							deferRestores = true
+							if !savedBefore(s.Val, d, st, field) {
+								reg.StaleRestore = append(reg.StaleRestore, s)
+							}
 						}
 					}
 				}
@@ -267,6 +344,9 @@ func flagRegions(p *Program, field string) []flagRegion {
 					case *ssa.Store:
 						if sf, ok := fieldOfAddr(x.Addr); ok && sf.Is("Parser", field) && x != st {
 							reg.Restored = true
+							if !savedBefore(x.Val, nil, st, field) {
+								reg.StaleRestore = append(reg.StaleRestore, x)
+							}
 							return
 						}
 					case *ssa.Call:
@@ -337,6 +417,10 @@ func scopeAgreement(c *Ctx, rule string) Kinds {
 		}
 		for i, reg := range regs {
 			key := fmt.Sprintf("region %s #%d in %s", cf.field, i+1, shortName(reg.Store.Parent()))
+			for _, sr := range reg.StaleRestore {
+				c.violated(rule+"-P2", key+" stale-restore", p.InstrPos(sr), "the value written back to Parser."+cf.field+" when the region ends is not a copy of the flag taken before it was switched on: the flag stays true afterwards, so the guarded statement is accepted in everything parsed later (its sentinel then escapes at run time)")
+				mark(false)
+			}
 			for _, l := range reg.LeakAt {
 				c.violated(rule+"-P2", key+" leak", p.InstrPos(l), "the function can return with Parser."+cf.field+" still true and no deferred restore: everything parsed afterwards is accepted as if inside the context")
 				mark(false)
